@@ -44,6 +44,8 @@ func checkC36(c *Ctx, r *Report) {
 	r.rule("C36.R1", "a segment is pruned only through stat.Max < min or stat.Min > max (strict, matching kinds), with nil checks before every dereference", 8)
 	r.rule("C36.R2", "per-record filters use the four strict comparisons with the same bounds that are handed to filterSegments; filterSegments drops nothing else", 12)
 	r.rule("C36.R3", "MaxOffset / MinOffset provenance (next base offset - 1 within the same partition of a sorted list; footer; clone)", 5)
+	r.rule("C36.R5", "the time index builder's per-segment statistics are running extremes over every record (pruning on them never drops a matching row)", 4)
+	checkSegmentStats(m, r)
 
 	// ---- R1
 	for _, spec := range []struct{ fn, minStat, maxStat string }{
@@ -434,4 +436,124 @@ func typeOfBase(v ssa.Value) string {
 		return t
 	}
 	return ""
+}
+
+// checkSegmentStats: scanSegment returns (minTS, maxTS, minOffset, maxOffset, ok). Each is the running
+// minimum / maximum of its field over all records: a loop-carried value that starts at an element of
+// the slice and is replaced by the current element's field only on the edge where that field compared
+// smaller (larger). Taking the first / last record instead is right only for monotone data.
+func checkSegmentStats(m *Module, r *Report) {
+	fn := needFn(m, r, "C36.R5", sqlModPath+"/internal/discovery", "(*TimeIndexBuilder).scanSegment")
+	if fn == nil {
+		return
+	}
+	spec := []struct {
+		field string
+		isMin bool
+		name  string
+	}{{"Timestamp", true, "minimum timestamp"}, {"Timestamp", false, "maximum timestamp"}, {"Offset", true, "minimum offset"}, {"Offset", false, "maximum offset"}}
+	var ret *ssa.Return
+	for _, b := range fn.Blocks {
+		if x, ok := b.Instrs[len(b.Instrs)-1].(*ssa.Return); ok && len(x.Results) == 5 {
+			if c, isC := x.Results[4].(*ssa.Const); isC && c.Value != nil && c.Value.String() == "true" {
+				ret = x
+			}
+		}
+	}
+	if ret == nil {
+		r.unresolved("C36.R5", "scanSegment: success return", "not found")
+		return
+	}
+	fieldLoad := func(v ssa.Value, field string) (*ssa.UnOp, bool) {
+		u, ok := strip(v).(*ssa.UnOp)
+		if !ok || u.Op != token.MUL {
+			return nil, false
+		}
+		fa, ok := u.X.(*ssa.FieldAddr)
+		if !ok {
+			return nil, false
+		}
+		_, f, _, ok := fieldAddrInfo(fa)
+		return u, ok && f == field
+	}
+	for i, sp := range spec {
+		key := "scanSegment result #" + fmt.Sprint(i) + " is the running " + sp.name + " over all records"
+		P, ok := strip(ret.Results[i]).(*ssa.Phi)
+		if !ok {
+			r.viol("C36.R5", key, m.Pos(ret.Pos()), "the value is "+describe(ret.Results[i])+", not a loop-carried extreme: the first / last record bounds the range only when the field is monotone within the segment")
+			continue
+		}
+		hdr := P.Block()
+		why := ""
+		nUpd := 0
+		var walk func(v ssa.Value, pred *ssa.BasicBlock, si int, depth int)
+		walk = func(v ssa.Value, pred *ssa.BasicBlock, si int, depth int) {
+			if why != "" || depth > 6 {
+				return
+			}
+			v = strip(v)
+			if v == ssa.Value(P) {
+				return
+			}
+			if ph, ok := v.(*ssa.Phi); ok && ph.Block() != hdr {
+				for j, e := range ph.Edges {
+					p := ph.Block().Preds[j]
+					idx := 0
+					for k, sb := range p.Succs {
+						if sb == ph.Block() {
+							idx = k
+						}
+					}
+					walk(e, p, idx, depth+1)
+				}
+				return
+			}
+			leaf, isF := fieldLoad(v, sp.field)
+			if !isF {
+				why = "updated with " + describe(v) + ", which is not a record's " + sp.field
+				return
+			}
+			if !hdr.Dominates(pred) {
+				return // the initial value: some record's field
+			}
+			nUpd++
+			g := Guard{cl(atomFn("elem."+sp.field+" compared with the running value", func(l Lit) bool {
+				x, y, op := l.X, l.Y, l.Op
+				if strip(x) == ssa.Value(P) {
+					x, y, op = y, x, swapOp(op)
+				}
+				if strip(y) != ssa.Value(P) {
+					return false
+				}
+				if !(strip(x) == ssa.Value(leaf) || sameFieldLoad(x, leaf)) {
+					return false
+				}
+				if sp.isMin {
+					return op == token.LSS || op == token.LEQ
+				}
+				return op == token.GTR || op == token.GEQ
+			}))}
+			if res := edgeGuarded(m, fn, pred, si, g); !res.OK {
+				why = "the running value is replaced on an edge that did not compare the record's " + sp.field + " with it in the right direction: " + res.String()
+			}
+		}
+		for j, e := range P.Edges {
+			p := hdr.Preds[j]
+			idx := 0
+			for k, sb := range p.Succs {
+				if sb == hdr {
+					idx = k
+				}
+			}
+			walk(e, p, idx, 0)
+		}
+		if why == "" && nUpd == 0 {
+			why = "the value is never updated inside the loop"
+		}
+		if why == "" {
+			r.ok("C36.R5", key, m.Pos(P.Pos()), fmt.Sprintf("%d guarded update edge(s)", nUpd))
+		} else {
+			r.viol("C36.R5", key, m.Pos(ret.Pos()), why)
+		}
+	}
 }
